@@ -174,6 +174,10 @@ def run_backends(ctx, tier, seed, kinds):
                 sort = ['none', 'lexi', 'alphanum'][(pi + len(proc)) % 3]
                 # several hundred models: the optimised build of the same library (the nogood search is quadratic in the number of models)
                 out = (ctx.native(release=True) if many else nat).call({'cmd': 'sem_text', 'text': txt, 'backend': backend, 'proc': proc, 'sort': sort}, timeout=120)
+                if out.get('timeout'):
+                    # no answer within two minutes: before this counts as a hang, the optimised build gets ten minutes (a loaded machine must not raise an alarm)
+                    out = ctx.native(release=True).call({'cmd': 'sem_text', 'text': txt, 'backend': backend, 'proc': proc, 'sort': sort}, timeout=600)
+                    stats['slow_answers'] = stats.get('slow_answers', 0) + 1
                 if 'result' not in out:
                     # a hang or a panic on a well-formed ADF is itself a violation ("an empty result, not an error")
                     confirmed.append(('%s:%s:%s:%s' % (backend, proc, sort, hashlib.sha1(txt.encode()).hexdigest()[:12]),
@@ -201,6 +205,7 @@ def run_backends(ctx, tier, seed, kinds):
 
 def replay_backend(ctx, v):
     out = ctx.native(release=bool(v.get('release'))).call({'cmd': 'sem_text', 'text': v['text'], 'backend': v['backend'], 'proc': v['proc'], 'sort': v['sort']}, timeout=120)
+    if out.get('timeout'): out = ctx.native(release=True).call({'cmd': 'sem_text', 'text': v['text'], 'backend': v['backend'], 'proc': v['proc'], 'sort': v['sort']}, timeout=600)
     if 'result' not in out: return 'reproduced', out
     names, acs, _ = T.parse(v['text'])
     got = as_declared(names, out)
